@@ -161,6 +161,40 @@ theorem field_typing_neutral (sch : Sch) (m : Mode) (r : Res) (ctx : Ctx) (d : D
     (step sch m (r, ctx) (.fields d t)).2 = some (.typing ((ctx.filter (·.2)).map fun p => (p.1, t))) := by
   simp only [step, typing_eq h]
 
+/-- a value computed from call-local data is a function of the step alone for the code as it is: it is recomputed
+    at every use and leaves nothing behind (the decoded `fixed` literal under the instance's effective type) -/
+theorem local_value_neutral (sch : Sch) (m : Mode) (r1 r2 : Res) (ctx : Ctx) (k v : Nat) :
+    (step sch m (r1, ctx) (.localValue k v)).2 = (step sch m (r2, ctx) (.localValue k v)).2 ∧
+    (step sch m (r1, ctx) (.localValue k v)).1.1 = r1 := ⟨rfl, rfl⟩
+
+/-- the variant that MEMOISES such a value under the key alone (seeded change C10-5: `_fixed_value` on the
+    element declaration, filled by whichever effective type needs it first): first writer wins -/
+def memoLocal (r : Res) (k v : Nat) : Res × Nat :=
+  match r.memo.lookup k with
+  | some w => (r, w)
+  | none => ({ r with memo := (k, v) :: r.memo }, v)
+
+/-- **memo entries must lie in the graph of a function of the KEY**: a memo fed with a call-local value that is
+    not the pure function's breaks the invariant, whatever the schema … -/
+theorem memo_local_breaks_inv (sch : Sch) (r : Res) (k v : Nat) (hv : v ≠ sch.pure k) (hk : r.memo.lookup k = none) :
+    ¬ Inv sch (memoLocal r k v).1 := by
+  intro h
+  have := h.memo (k, v) (by simp [memoLocal, hk])
+  exact hv this
+
+/-- … and makes the value an instance sees depend on the history: after ANY earlier call that computed `v1` for
+    the key, an instance whose own data give `v2 ≠ v1` is shown `v1`; a fresh schema object shows it `v2` -/
+theorem memo_local_history_dependent (r : Res) (k v1 v2 : Nat) (hne : v1 ≠ v2) (hk : r.memo.lookup k = none) :
+    (memoLocal (memoLocal r k v1).1 k v2).2 = v1 ∧ (memoLocal r k v2).2 = v2 ∧
+    (memoLocal (memoLocal r k v1).1 k v2).2 ≠ (memoLocal r k v2).2 := by
+  have h1 : (memoLocal (memoLocal r k v1).1 k v2).2 = v1 := by simp [memoLocal, hk]
+  have h2 : (memoLocal r k v2).2 = v2 := by simp [memoLocal, hk]
+  exact ⟨h1, h2, by rw [h1, h2]; exact hne⟩
+
+/-- non-vacuity: declared xs:decimal fixed="1" (key 20): 1 = the integer read by `xsi:type="xs:integer"`,
+    2 = the decimal read by the declared type -/
+example : (memoLocal (memoLocal Res.init 20 1).1 20 2).2 = 1 ∧ (memoLocal Res.init 20 2).2 = 2 := by decide
+
 /-! ### the code before 1e49c64 (collection gated by `selected_by`; finding C10-F2, fixed) -/
 
 /-- on plain (no namespace lookups, no abort inside an xsi block), self-sufficient documents the gated code was
